@@ -175,7 +175,7 @@ Qed.
    compressor), clap.  The glue of Model/CliFile.v itself is not compared with the binaries by the check; its parts are
    (CliText.v here, the writers and readers byte for byte by C01/C02). *)
 From BT Require Import Base.LE Base.Float Model.RTree Model.AutoSql Model.BigBedWrite Model.BBIReadBed Model.CliFile.
-From BT Require Import Proofs.RTreeCodec Proofs.BigWigFileChroms Proofs.BigWigFileInput Proofs.AcceptRules Proofs.CliEndToEnd Proofs.CliEndToEndEx.
+From BT Require Import Proofs.RTreeCodec Proofs.BigWigFileChroms Proofs.BigWigFileInput Proofs.AcceptRules Proofs.CliEndToEnd Proofs.CliEndToEndBridge Proofs.CliEndToEndEx.
 From BT Require Model.Accept Model.AcceptBed Proofs.BigWigFileRoundTrip Proofs.BedCodec Proofs.BedReadInfo Proofs.BedEndToEnd.
 
 (* bedGraph -> bigWig -> bedGraph.  For a chrom.sizes text and a bedGraph text that parse to [sizes] and [items], with the items
@@ -298,6 +298,30 @@ Theorem C16_bed_file_hyps : forall o cs_text in_text sizes items f,
 Proof. exact bed_file_hyps_of_text. Qed.
 Print Assumptions C16_bed_file_hyps.
 
+(* the byte-level converters and the list-level converters of the first part of this file (the model bin/check C16 compares with the
+   BUILT BINARIES on every run) agree: whenever the list-level writer accepts the texts, the byte-level writer returns a file, and
+   for every --chrom/--start/--end the byte-level reader on that file returns exactly the list-level reader's output, for every
+   block size [ips] of the list-level model.  (The list-level writer demands ascending chromosome names, i.e. -s all.) *)
+Theorem C16_file_matches_list_model_bigwig : forall pf fp o two_pass cs_text in_text sizes items file,
+  parse_chrom_sizes cs_text = Ok sizes -> mapM (parse_bedgraph pf) (lines in_text) = Ok items ->
+  BigWigFileRoundTrip.opts_ok o -> BigWigFileRoundTrip.input_ok sizes items ->
+  bedgraph_to_bigwig pf cs_text in_text = Ok file ->
+  exists bs, bedgraphtobigwig_file pf fp o two_pass cs_text in_text = Ok bs /\
+    (Nlen bs < U64 -> forall infl ips chrom st en, (0 < ips)%nat ->
+       bigwigtobedgraph_records infl bs chrom st en = Ok (bigwig_to_bedgraph ips file chrom st en)).
+Proof. exact file_matches_list_model_bigwig. Qed.
+Print Assumptions C16_file_matches_list_model_bigwig.
+
+Theorem C16_file_matches_list_model_bigbed : forall fp o two_pass user_autosql cs_text in_text sizes items file,
+  parse_chrom_sizes cs_text = Ok sizes -> mapM parse_bed (lines in_text) = Ok items ->
+  (forall s, user_autosql = Some s -> AcceptBed.has_nul s = false) -> Accept.opts_ok o = true ->
+  bed_to_bigbed (match user_autosql with Some _ => true | None => false end) cs_text in_text = Ok file ->
+  exists f, bedtobigbed_file fp o two_pass user_autosql cs_text in_text = Ok f /\
+    (BedEndToEnd.file_hyps o sizes (to_bitems items) f -> forall infl ips chrom st en, (0 < ips)%nat ->
+       bigbedtobed_records infl f chrom st en = Ok (bigbed_to_bed ips file chrom st en)).
+Proof. exact file_matches_list_model_bigbed. Qed.
+Print Assumptions C16_file_matches_list_model_bigbed.
+
 (* ---- non-vacuity, computed: "chr1 1000 / chr2 500", a four-line two-chromosome bedGraph text and a four-line BED text with
    overlapping, nested and zero-length entries and a UTF-8 extra column, toy printer/parser pair (decimal reading of the bit
    pattern), items_per_slot = 2 (two data blocks on chr1), both pass modes.  Every hypothesis holds and the whole pipeline
@@ -350,3 +374,7 @@ Example C16_ex_file_k2 : forall two_pass,
   | Ok f => bigbedtobed_file idf f None None None = Err R_INVALID
   | _ => False end.
 Proof. exact ex_k2_zero_zero_refused. Qed.
+Example C16_ex_file_list_model :
+  (exists file, bedgraph_to_bigwig toy_pf ex_cs_text ex_bg_text = Ok file)
+  /\ (exists file, bed_to_bigbed false ex_cs_text ex_bed_text = Ok file).
+Proof. exact ex_list_model_accepts. Qed.
